@@ -2,6 +2,7 @@ import NunavutVerif.Lemmas.GenCSer
 import NunavutVerif.Lemmas.GenCDe
 import NunavutVerif.Lemmas.DsdlRepr
 import NunavutVerif.Lemmas.DsdlDecode
+import NunavutVerif.Lemmas.GenCXDe
 /-!
 # C01 / C02 / C04 — the generated C codecs refine the DSDL specification
 
@@ -356,5 +357,68 @@ example : (serializeC (liar false) exTy2 exVal2 [0, 0] 2) = .ok ([255, 0], 2) :=
 example : serializeC (liar true) exTy2 exVal2 [0, 0] 2 = .error .assert := by decide
 example : deserializeC (liar true) exTy2 [253, 7] 2 = .error .assert := by decide
 example : deserializeC (liar false) exTy2 [253, 7] 2 ≠ (deBytes exTy2 [253, 7]).mapError embedD := by decide
+
+/-! ## Round 2: addresses (the `nunavutCopyBits` assertions about `src` / `dst`) -/
+
+/-- **Deserialization with addresses** (C02/C04).  `deserializeCX` is the same transcription with every
+`nunavutCopyBits` call preceded by its three address assertions (`src != dst` and, in the unaligned branch, the two
+overlap assertions as emitted since 443d39c), the buffer at address `b0`, nested calls on `&buffer[offset_bits / 8U]`,
+and the primitive's local / the destination member array wherever the placement `X.adr` puts them.  For **every**
+placement that keeps those objects disjoint from the user's buffer (`Placed`: no assumption about order or
+distance) the result is that of `deserializeC` — in particular the source range `psrc + (src_offset_bits +
+length_bits + 7) / 8`, which is computed from the UNSATURATED offset and may reach far behind the buffer, cannot
+matter: it is not evaluated for a copy of zero bits and lies inside the buffer otherwise (`copyBits_ok_inv`).
+`hh`: the unguarded `src != dst` additionally needs that no such object starts exactly at a pointer at or behind the
+end of the buffer (the code forms `&buffer[offset_bits / 8U]` there and copies zero bits from it); see the example
+below for why this cannot be dropped. -/
+theorem C02_genC_deserialize_any_placement (o : Opts) (hs : o.Sound) (t : Ty) (hw : wf t = true) (hwC : wfC t = true)
+    (hc : isComposite (topInner t) = true) (buf : Buf) (cap : Nat) (hwf : WF buf) (hcap : cap ≤ buf.length)
+    (X : Ext) (hfx : X.fixed = true) (hov : X.ovr = false) (b0 : Nat) (hp : Placed X b0 buf.length)
+    (hh : X.headGuarded = true ∨ NoAliasPastEnd X b0 buf.length) :
+    deserializeCX o X b0 t buf cap = deserializeC o t buf cap := by
+  have hi : InvD o X b0 buf.length b0 buf := fun _ _ => ⟨Nat.le_refl _, fun _ => Nat.le_refl _⟩
+  rcases (deSimP (B := False) hfx hov hp hh t).2 b0 buf cap hi with h | ⟨hB, _⟩ | ⟨e, h⟩
+  · exact h
+  · exact absurd hB id
+  · exact absurd h (C04_genC_deserialize_memory_safe o hs t hw hwC hc buf cap hwf hcap e)
+
+/-- … hence no assertion of the deserializer can fail, the address assertions of `nunavutCopyBits` included, wherever
+the locals and the destination object are placed (extends `C04_genC_no_assertion_fails`). -/
+theorem C04_genC_no_assertion_fails_any_placement_deserialize (o : Opts) (hs : o.Sound) (t : Ty) (hw : wf t = true)
+    (hwC : wfC t = true) (hc : isComposite (topInner t) = true) (buf : Buf) (cap : Nat) (hwf : WF buf)
+    (hcap : cap ≤ buf.length) (X : Ext) (hfx : X.fixed = true) (hov : X.ovr = false) (b0 : Nat)
+    (hp : Placed X b0 buf.length) (hh : X.headGuarded = true ∨ NoAliasPastEnd X b0 buf.length) :
+    deserializeCX o X b0 t buf cap ≠ .error .assert := by
+  rw [C02_genC_deserialize_any_placement o hs t hw hwC hc buf cap hwf hcap X hfx hov b0 hp hh]
+  rw [deserializeC_refines o hs t hw hwC hc buf cap hwf hcap]
+  cases deBytes t (buf.take cap) with
+  | ok r => intro h; cases h
+  | error e' => cases e' <;> intro h <;> cases h
+
+/-! Regression (443d39c) and non-vacuity: `uint7 a; void2; uint7 b` decoded from a one-byte buffer at address 100 with the
+local of `nunavutGetU8` directly above it at 101.  Field `b` lies behind the buffer: zero bits are copied from bit
+offset 9.  Text before the fix: `psrc + (9 + 0 + 7) / 8 = 102 > pdst` — abort.  Text now: not evaluated. -/
+def regTy : Ty := .struct [.uint 7 .trunc, .void 2, .uint 7 .trunc]
+def regOpts : Opts := { little := false, orc := exactOrc, asserts := true }
+/-- everything the buffer is paired with sits at address `a` -/
+def allAt (a : Nat) (fixed headGuarded : Bool) : Ext :=
+  { addrs := true, adr := fun _ _ _ _ => a, fixed := fixed, headGuarded := headGuarded }
+
+example : ∀ k pb off sz, Disj ((allAt 101 false false).adr k pb off sz) sz 100 1 := fun _ _ _ _ => Or.inr (Nat.le_refl _)
+example : deserializeCX regOpts (allAt 101 false false) 100 regTy [0x55] 1 = .error .assert := by decide
+example : deserializeCX regOpts (allAt 101 true false) 100 regTy [0x55] 1 = .ok (.struct [.int 0x55, .void, .int 0], 1) := by
+  decide
+example : deserializeC regOpts regTy [0x55] 1 = .ok (.struct [.int 0x55, .void, .int 0], 1) := by decide
+-- the same with the local directly below the buffer, and little-endian rendering
+example : deserializeCX { regOpts with little := true } (allAt 92 true false) 100 regTy [0x55] 1 =
+    .ok (.struct [.int 0x55, .void, .int 0], 1) := by decide
+
+/-! `src != dst` (emitted unguarded): `uint8 a; Inner b` with `Inner = uint16 x`, one-byte buffer at 100: the nested call
+gets `&buffer[1]` = 101 with size 0 and `nunavutGetU16` copies zero bits from it into its local — if that local is the
+object right behind the buffer, `src == dst`.  The overlap assertions hold; `hh` of the theorem is what excludes this. -/
+def nestTy : Ty := .struct [.uint 8 .trunc, .struct [.uint 16 .trunc]]
+example : deserializeCX regOpts (allAt 101 true false) 100 nestTy [7] 1 = .error .assert := by decide
+example : deserializeCX regOpts (allAt 101 true true) 100 nestTy [7] 1 = deserializeC regOpts nestTy [7] 1 := by decide
+example : deserializeCX regOpts (allAt 102 true false) 100 nestTy [7] 1 = deserializeC regOpts nestTy [7] 1 := by decide
 
 end NunavutVerif.GenC
